@@ -626,3 +626,69 @@ func c16Univ(vm *VM) {
 		c16Expect("=..(number)", rows, st, [][]Term{{rList([]Term{Integer(x)})}})
 	}
 }
+
+// ---- aliased arguments: instantiating by sharing a variable selects the matching subset ----
+
+var c16Alias = []struct{ general, aliased string }{
+	{"nth0(A, [2, 1, 0], B)", "nth0(A, [2, 1, 0], A)"},
+	{"nth0(A, [1, 2, 0], B)", "nth0(A, [1, 2, 0], A)"},
+	{"nth1(A, [1, 3, 3], B)", "nth1(A, [1, 3, 3], A)"},
+	{"nth0(A, [f(1), f(1), f(0)], f(B))", "nth0(A, [f(1), f(1), f(0)], f(A))"},
+	{"nth1(A, [g(2, 1), g(2, 2), g(3, 3)], g(B, B2)), B == B2", "nth1(A, [g(2, 1), g(2, 2), g(3, 3)], g(B, B)), true"},
+	{"between(1, 3, A), arg(A, f(3, 2, 1), B)", "between(1, 3, A), arg(A, f(3, 2, 1), A)"},
+	{"between(1, 3, A), arg(A, f(1, 1, 3), B)", "between(1, 3, A), arg(A, f(1, 1, 3), A)"},
+	{"append(A, B, [x, y, x, y])", "append(A, A, [x, y, x, y])"},
+	{"append(A, B, [x, y, x])", "append(A, A, [x, y, x])"},
+	{"atom_concat(A, B, abab)", "atom_concat(A, A, abab)"},
+	{"atom_concat(A, B, aba)", "atom_concat(A, A, aba)"},
+	{"sub_atom(abc, A, B, _, _)", "sub_atom(abc, A, A, _, _)"},
+	{"sub_atom(abc, A, _, B, _)", "sub_atom(abc, A, _, A, _)"},
+	{"sub_atom(abab, _, _, _, S), atom_length(S, 2), A = S, sub_atom(abab, _, _, _, B), atom_length(B, 2)", "sub_atom(abab, _, _, _, A), atom_length(A, 2), sub_atom(abab, _, _, _, A), true"},
+	{"member(A-B, [1-1, 1-2, 2-2, 3-1])", "member(A-A, [1-1, 1-2, 2-2, 3-1])"},
+	{"select(A, [1, 2, 1], [B|_])", "select(A, [1, 2, 1], [A|_])"},
+	{"between(1, 3, A), between(2, 4, B)", "between(1, 3, A), between(2, 4, A)"},
+	{"length(L, A), A >= 1, !, L = [B|_], B = 1", "length(L, A), A >= 1, !, L = [A|_], true"},
+	{"[X, Y] = [A, B], member(X, [p, q]), member(Y, [q, p])", "[X, Y] = [A, A], member(X, [p, q]), member(Y, [q, p])"},
+	{"atom_chars(aba, [A, _, B])", "atom_chars(aba, [A, _, A])"},
+	{"atom_chars(abc, [A, _, B])", "atom_chars(abc, [A, _, A])"},
+	{"atom_codes(aba, [A, _, B])", "atom_codes(aba, [A, _, A])"},
+	{"f(1, 2, 1) =.. [_, A, _, B]", "f(1, 2, 1) =.. [_, A, _, A]"},
+	{"functor(T, foo, 2), T = foo(A, B), A = 1, B = 1", "functor(T, foo, 2), T = foo(A, A), A = 1, true"},
+	{"copy_term(g(X, Y), g(A, B)), A = 1, B = 1", "copy_term(g(X, X), g(A, B)), A = 1, B == 1"},
+	{"sort([c, a, b, a], [A, _, _]), sort([a, c], [B|_])", "sort([c, a, b, a], [A, _, _]), sort([a, c], [A|_])"},
+}
+
+// VH_C16_alias: the answers of the aliased call are those answers of the general call in which the two variables
+// are identical, in the same order.
+func VH_C16_alias(vm *VM, inst int) {
+	c := c16Alias[inst]
+	note("case", c.general+"  vs  "+c.aliased)
+	run := func(text string, names ...string) [][]Term {
+		q, pv, err := vParseQuery(vm, text+".")
+		verify(err == nil, "harness: does not parse: "+text)
+		vars := make([]Variable, len(names))
+		for i, n := range names {
+			for _, v := range pv {
+				if v.Name.String() == n {
+					vars[i] = v.Variable
+				}
+			}
+		}
+		r := vRunImpl(vm, q, vars, 12, nil)
+		verify(r.status != "error", "a call within the modes raised an error: "+text)
+		return r.answers
+	}
+	gen := run(c.general, "A", "B")
+	var want []Term
+	for _, row := range gen {
+		if decide(vIdenticalV(row[0], row[1])) {
+			want = append(want, row[0])
+		}
+	}
+	got := run(c.aliased, "A")
+	verify(len(got) == len(want), "sharing a variable between two arguments does not select the matching answers of the general call (different number of answers)")
+	for i := range got {
+		verify(vIdenticalV(got[i][0], want[i]), "sharing a variable between two arguments gives an answer the general call does not have at that position")
+	}
+	reach("c16/alias", true)
+}
